@@ -55,6 +55,7 @@ class _Tunnel(Interface):
     """Class for handling KNX/IP tunnels."""
 
     __slots__ = (
+        "_connection_count",
         "_data_endpoint_addr",
         "_heartbeat",
         "_reconnect_task",
@@ -88,6 +89,8 @@ class _Tunnel(Interface):
         self.communication_channel: int | None = None
         self.local_hpai: HPAI = HPAI()
         self.sequence_number = 0
+        # counts established connections - each one starts its own sequence counter
+        self._connection_count = 0
         self.cemi_received_callback = cemi_received_callback
         self._data_endpoint_addr: tuple[str, int] | None = None
         self._heartbeat = ConnectionHeartbeat(
@@ -161,6 +164,7 @@ class _Tunnel(Interface):
     def _tunnel_established(self) -> None:
         """Set up interface when the tunnel is ready."""
         self.sequence_number = 0
+        self._connection_count += 1
         self.start_heartbeat()
 
     def _tunnel_lost(self) -> None:
@@ -340,10 +344,13 @@ class _Tunnel(Interface):
         """
         raw_cemi = cemi.to_knx()
         async with self._send_ready():
+            connection = self._connection_count
             try:
                 await self._tunnelling_request(raw_cemi)
             finally:
-                self._increase_sequence_number()
+                # a connection established meanwhile starts counting at 0
+                if connection == self._connection_count:
+                    self._increase_sequence_number()
 
     async def _tunnelling_request(self, raw_cemi: bytes) -> None:
         """Send CEMI Frame to tunnelling server."""
@@ -514,6 +521,7 @@ class UDPTunnel(_Tunnel):
         """
         raw_cemi = cemi.to_knx()
         async with self._send_ready():
+            connection = self._connection_count
             try:
                 try:
                     await self._tunnelling_request(raw_cemi)
@@ -522,6 +530,7 @@ class UDPTunnel(_Tunnel):
                 else:
                     return
 
+                connection = self._connection_count
                 try:
                     await self._tunnelling_request(raw_cemi)
                 except TunnellingAckError as err:
@@ -544,6 +553,7 @@ class UDPTunnel(_Tunnel):
                         True,
                     ) from None
 
+                connection = self._connection_count
                 try:
                     await self._tunnelling_request(raw_cemi)
                 except TunnellingAckError as err:
@@ -553,7 +563,9 @@ class UDPTunnel(_Tunnel):
                     ) from None
 
             finally:
-                self._increase_sequence_number()
+                # a connection established meanwhile starts counting at 0
+                if connection == self._connection_count:
+                    self._increase_sequence_number()
 
     async def _send_tunnelling_request(self, frame: TunnellingRequest) -> None:
         """Send Telegram to tunnelling device."""
